@@ -60,10 +60,12 @@ var checker = &vk.Checker[Case]{
 	ID: "C16",
 	Rule: "key sets built from a random prefix tree (deep shared prefixes across the 8- and 16-byte chunk boundaries, a key that is a prefix of its successor, NUL suffix families a/a\\0/a\\0\\0, empty key, bytes >= 0x80), sorted and de-duplicated; FirstDiffBits also on unsorted lists and single keys; " +
 		"3 of 10 cases: a strictly ascending key set described as a walk (Tree): 2..4096 keys (thorough 2^15), the number log-uniform, every key derived from its predecessor by an extension (prefix of successor, NUL families) or by raising a byte near the end, so that first differences are deep at every index; a common root of 0..8 KiB (thorough 128 KiB), log-uniform; optionally a stretch of keys sharing up to 8 KiB more than their neighbours (first differences thousands of bits apart inside one sub-range); optionally only every k-th key longer than 8 bytes; alphabets: all bytes / {00,ff,a,b} / {a,b}. " +
+		"1 case in 1600: 65 537..~165 000 (thorough ~465 000) four-byte keys i*stride (stride 1,2,3,4,5,11) with varying tails, CountPrefixes on the whole set and on a range of more than 65 536 keys with m in 18..33 (counters above 65 535; one first difference shared by more than 65 535 pairs). " +
 		"Half of all cases hand the keys over as substrings of ONE larger buffer (foreign non-zero bytes around them): all at the same offset 0..7 from an 8-byte boundary, two different offsets, packed back to back, an offset per key, or a buffer per key; the other half as fresh heap strings / a reused list. " +
 		"CountPrefixes(s,e,m) on strictly ascending sets: ALL sub-ranges with e-s>=2 when n<=8 (thorough n<=12) x m in {1,2,3,8,9,17,64, one further m in 1..72 chosen by the case} and, on three sub-ranges per case, m = total bits+5, and (1 case in 8, and the whole pool grid) every m in 1..72 on (0,n) and (1,n); plus sampled (s,e,m) on every set: range length and start log-uniform, m uniform in 1..72 / log-uniform up to twice the key bits / around the longest key's bits / log-uniform up to 2^16 (thorough 2^21). " +
+		"Results are looked at again after later calls: the slice of FirstDiffBits at the end of its case; it, up to three verified (first result, counters) answers per case (ranges with (e-s)+m <= 2048) and the SigBits object they came from stay under watch during the next 8 cases - the slices must read as they did when they were returned (their spare capacity is overwritten first, as a caller's append would), and the same (s,e,m) on the kept object must give the same answers after other objects were built and queried. A SigBits may refer to its argument list, so an object built on the reused argument list (half of the cases) is not kept, only the slices it returned. " +
 		"Oracle: first differing byte, then first differing bit of those two bytes (compared with a plain bit loop in the grid); m0 = min over adjacent pairs in range; counter i = number of distinct (m0+i)-bit truncations compared as plain bit strings (bits+length), a shorter key counting as itself: by pairwise comparison (<= 64 keys, <= 12 on sampled queries), by a set (65..4096 keys) or by comparing neighbours (longer ranges; equal truncations of ascending keys are contiguous; cross-checked against the other two). For long counter vectors the counters are decided exactly at 0,1,2,m-2,m-1, around every first difference and key end of the range (48 spread over it when longer), at 3..65 and at pseudo-random indices within a cost budget, everywhere at or beyond the longest key (= e-s), and all of them for 1 <= c[i-1] <= c[i] <= e-s. " +
-		"Grid: all sorted subsets (size 2..5) of a 14-key pool; three very large key sets (70 001, 2^18+7 and 2^19+9 keys: every adjacent pair, sub-ranges around every power-of-two index); key lengths 0..41 and around 48..257 x every position of the first differing byte x both keys at the same offset 0..7 / different offsets inside one buffer; Tree sets of 2^k-1, 2^k, 2^k+1 and two other sizes per octave up to 2^14 keys (100..5000 and 10007 keys under every GOMAXPROCS setting of the procs process); common roots and deep stretches of 2^k-1, 2^k, 2^k+1 and two other lengths per octave up to 64 KiB; m = 2^k-1, 2^k, 2^k+1 and two others per octave up to 2^16. " +
+		"Grid: all sorted subsets (size 2..5) of a 14-key pool; three very large key sets (70 001, 2^18+7 and 2^19+9 keys: every adjacent pair, sub-ranges around every power-of-two index, m = 2 on most ranges longer than 8192 keys, m = 24 on the whole set (70 001, 2^18+7) and m = 22 on [2^17, 2^18) resp. [2^18, 2^19)) and 2^17+2 keys 0,1,2,.. with ranges that put exactly 2^15-1, 2^15, 2^15+1, 2^16-1, 2^16, 2^16+1 pairs on one first difference (m = 18..21); key lengths 0..41 and around 48..257 x every position of the first differing byte x both keys at the same offset 0..7 / different offsets inside one buffer; Tree sets of 2^k-1, 2^k, 2^k+1 and two other sizes per octave up to 2^14 keys (100..5000 and 10007 keys under every GOMAXPROCS setting of the procs process); common roots and deep stretches of 2^k-1, 2^k, 2^k+1 and two other lengths per octave up to 64 KiB; m = 2^k-1, 2^k, 2^k+1 and two others per octave up to 2^16. " +
 		"Non-trivial: >= 3 keys sharing >= 1 byte of prefix and (a key that is a prefix of its successor, or a common prefix > 8 bytes, or a NUL-suffix pair). Distinct by hash of the case.",
 	Check:    check,
 	Classify: classify,
@@ -189,22 +191,35 @@ func checkCount(sb *sigbits.SigBits, keys []string, s, e, m int) *vk.Failure {
 
 func checkCountAgainst(sb *sigbits.SigBits, keys []string, s, e, m int, wm int32, wc []int32) *vk.Failure {
 	wc = wc[:m]
+	showKeys := func() string { // the whole list only when it is short (a very large set would make a message of megabytes)
+		if len(keys) <= 64 {
+			return fmt.Sprintf("%x", keys)
+		}
+		return fmt.Sprintf("(%d keys; keys[s..s+3]=%.80x ... keys[e-2..e]=%.80x)", len(keys), keys[s:min(s+3, e)], keys[e-2:e])
+	}
+	showCounters := func(v []int32) string {
+		if len(v) <= 80 {
+			return fmt.Sprint(v)
+		}
+		return fmt.Sprintf("%v ... (%d counters)", v[:80], len(v))
+	}
 	var gm int32
 	var gc []int32
 	if f := vk.Try(fmt.Sprintf("CountPrefixes(%d,%d,%d) on %d keys", s, e, m, len(keys)), func() { gm, gc = sb.CountPrefixes(int32(s), int32(e), int32(m)) }); f != nil {
 		return f
 	}
 	if gm != wm {
-		return vk.Failf("count-min", "CountPrefixes(s=%d,e=%d,m=%d) on keys %x: first result %d, want %d", s, e, m, keys, gm, wm)
+		return vk.Failf("count-min", "CountPrefixes(s=%d,e=%d,m=%d) on keys %s: first result %d, want %d", s, e, m, showKeys(), gm, wm)
 	}
 	if len(gc) != len(wc) {
 		return vk.Failf("count-len", "CountPrefixes(s=%d,e=%d,m=%d) returned %d counters, want %d", s, e, m, len(gc), len(wc))
 	}
 	for i := range gc {
 		if gc[i] != wc[i] {
-			return vk.Failf("count", "CountPrefixes(s=%d,e=%d,m=%d) on keys %x: counter %d (prefix length %d bits) = %d, want %d; all %v want %v", s, e, m, keys, i, int(wm)+i, gc[i], wc[i], gc, wc)
+			return vk.Failf("count", "CountPrefixes(s=%d,e=%d,m=%d) on keys %s: counter %d (prefix length %d bits) = %d, want %d; all %s want %s", s, e, m, showKeys(), i, int(wm)+i, gc[i], wc[i], showCounters(gc), showCounters(wc))
 		}
 	}
+	noteResult(s, e, m, gm, gc)
 	return nil
 }
 
@@ -268,9 +283,13 @@ func check(c Case) *vk.Failure {
 			return vk.Failf("firstdiffbits", "FirstDiffBits(...)[%d] of %d keys for keys %s / %s = %d, want %d (%s; key data at addresses = %d and %d mod 8)", i, len(keys), showKey(orig[i]), showKey(orig[i+1]), ds[i], wd[i], layLabel(uint64(c.Lay)), addrMod8(keys[i]), addrMod8(keys[i+1]))
 		}
 	}
+	vk.ScribbleI32(ds) // the spare capacity of a result is the caller's (append)
 	if !sorted || len(keys) < 2 {
-		return nil
+		return watch(ds, wd, nil, keys, reused, nil)
 	}
+	ck := &caseKeep{salt: sum}
+	curKeep = ck
+	defer func() { curKeep = nil }()
 	var sb *sigbits.SigBits
 	if f := vk.Try("sigbits.New", func() { sb = sigbits.New(keys) }); f != nil {
 		return f
@@ -329,7 +348,11 @@ func check(c Case) *vk.Failure {
 			return vk.Failf("argument-spare-capacity-written", "%s", msg)
 		}
 	}
-	return nil
+	// the FirstDiffBits result once more, after everything that was called since
+	if at := sameI32(ds, wd); at >= 0 {
+		return vk.Failf("firstdiffbits-changed-after-later-call", "FirstDiffBits(%d keys) returned %d at position %d; after sigbits.New and CountPrefixes calls on the same keys the returned slice reads %d there", len(keys), wd[at], at, ds[at])
+	}
+	return watch(ds, wd, sb, keys, reused, ck)
 }
 
 func showKey(k string) string {
@@ -386,6 +409,12 @@ func classify(c Case) (bool, []string) {
 		labels = append(labels, "every-m-up-to-allm")
 	}
 	if c.Big != nil {
+		for _, q := range c.Queries {
+			if q[1]-q[0] > 65536 && q[2] >= 18 {
+				labels = append(labels, "range>65536-keys-with-m>=18(counters>65535)")
+				break
+			}
+		}
 		return true, append(labels, "class:very-large-key-set")
 	}
 	keys := c.oracleKeys()
@@ -460,6 +489,9 @@ func classify(c Case) (bool, []string) {
 
 func genCase(t *rapid.T) Case {
 	var c Case
+	if gen.Chance(t, 1, 40, "more-than-65536-keys") && gen.Chance(t, 1, 40, "more-than-65536-keys.2") { // two draws: rapid repeats small raw values often, one draw of 1 in 1600 is far off
+		return genManyKeys(t)
+	}
 	if gen.Chance(t, 3, 10, "tree") {
 		c = genTree(t)
 	} else {
@@ -467,6 +499,24 @@ func genCase(t *rapid.T) Case {
 	}
 	if gen.Chance(t, 1, 2, "laid-out") {
 		c.Lay = vk.U64(genLay(t))
+	}
+	return c
+}
+
+// genManyKeys: 65 537 .. ~165 000 (thorough ~465 000) four-byte keys i*stride (BigKeys), queried on ranges of
+// more than 65 536 keys with counter vectors that hold every first difference of the range: counters above
+// 65 535, and (stride 1, 2, 4 on > 2^17 keys) one first difference shared by more than 65 535 pairs.
+func genManyKeys(t *rapid.T) Case {
+	spec := BigKeys{N: 1<<16 + 1 + gen.Uniform(t, vk.Pick(100000, 400000), "many.n"), Stride: []int{1, 1, 2, 3, 4, 5, 11}[gen.Uniform(t, 7, "many.stride")]}
+	c := Case{Big: &spec, Sorted: true, Class: "very-large-key-set"}
+	m := int32(18 + gen.Uniform(t, 16, "many.m"))
+	c.Queries = append(c.Queries, [3]int32{0, int32(spec.N), m})
+	l := 1<<16 + 1 + gen.Uniform(t, spec.N-1<<16, "many.len")
+	s := gen.Uniform(t, spec.N-l+1, "many.s")
+	c.Queries = append(c.Queries, [3]int32{int32(s), int32(s + l), int32(18 + gen.Uniform(t, 16, "many.m2"))})
+	s2, e2 := genRange(t, spec.N, "many.q")
+	if e2-s2 <= 4096 {
+		c.Queries = append(c.Queries, [3]int32{int32(s2), int32(e2), int32(1 + gen.Uniform(t, 72, "many.m3"))})
 	}
 	return c
 }
@@ -611,7 +661,15 @@ func TestGrid(t *testing.T) {
 			c.Queries = append(c.Queries, [3]int32{0, at, mm}, [3]int32{at / 2, at, mm}, [3]int32{at, at + at/2, mm})
 			if 2*int(at) < spec.N {
 				c.Queries = append(c.Queries, [3]int32{at, 2 * at, mm}, [3]int32{at, 2*at + 1, mm}, [3]int32{at - 1, 2 * at, mm})
+				if k >= 17 && (spec.Stride != 1 || k == 18) {
+					// every first difference of a range of >= 2^17 keys inside the counter vector: one first
+					// difference is shared by more than 65 535 pairs, counters exceed 65 535
+					c.Queries = append(c.Queries, [3]int32{at, 2 * at, 22})
+				}
 			}
+		}
+		if spec.N > 65536 && spec.N < 1<<19 {
+			c.Queries = append(c.Queries, [3]int32{0, int32(spec.N), 24})
 		}
 		for b := int32(1024); int(b)+3072 < spec.N && b < 40000; b += 1024 {
 			c.Queries = append(c.Queries, [3]int32{b, b + 1024, 16}, [3]int32{b, b + 3072, 16})
@@ -623,6 +681,7 @@ func TestGrid(t *testing.T) {
 		c.Queries = append(c.Queries, [3]int32{0, int32(spec.N), 2})
 		checker.Run(t, c)
 	}
+	gridBucketBoundaries(t)
 	vk.MarkExhaustive("all sorted subsets of size 2..5 of a 14-key pool x all sub-ranges x 9 values of m (x every m in 1..72 on the sub-ranges (0,n) and (1,n))")
 }
 
@@ -703,6 +762,20 @@ func gridAlignment(t *testing.T) {
 			checker.Run(t, Case{Keys: vk.HexStrings(keys), Sorted: false, Class: "alignment-grid", Lay: vk.U64(mkLay(layTwoOffsets, o[0], o[1], uint64(l)))})
 		}
 	}
+}
+
+// gridBucketBoundaries: 2^17+2 four-byte keys 0,1,2,...: in keys[0:e] the pairs (2j, 2j+1) all have their
+// first difference at bit 31, the others above it. Ranges that put exactly 2^15-1, 2^15, 2^15+1 and 2^16-1,
+// 2^16, 2^16+1 pairs on that one first difference (and 2^16-1, 2^16, 2^16+2 .. keys into the last counters),
+// with a counter vector that reaches past bit 31; the same numbers on ranges that do not start at key 0.
+func gridBucketBoundaries(t *testing.T) {
+	spec := BigKeys{N: 1<<17 + 2, Stride: 1}
+	c := Case{Big: &spec, Sorted: true, Class: "very-large-key-set"}
+	for _, e := range []int32{1<<16 - 1, 1 << 16, 1<<16 + 2, 1<<17 - 1, 1 << 17, 1<<17 + 2} {
+		c.Queries = append(c.Queries, [3]int32{0, e, 18})
+	}
+	c.Queries = append(c.Queries, [3]int32{2, 1<<16 + 4, 19}, [3]int32{1, 1<<17 + 2, 21})
+	checker.Run(t, c)
 }
 
 func rangeQueries(n, i int, ms []int) [][3]int32 {
